@@ -457,9 +457,64 @@ def check_exists_drop(ctx):
 
     def exist_test(t):
         return isinstance(t, ast.Call) and res.canon(t.func) in EXIST and t.args and A.src(t.args[0]) == rp0
+    def truth(e, env):
+        """Value of a boolean expression over the atoms R (self._recompute) and E (the file is there); None if something else."""
+        if isinstance(e, ast.Constant) and isinstance(e.value, bool):
+            return e.value
+        if A.is_self_attr(e, "_recompute"):
+            return env["R"]
+        if exist_test(e):
+            return env["E"]
+        if isinstance(e, ast.UnaryOp) and isinstance(e.op, ast.Not):
+            v = truth(e.operand, env)
+            return None if v is None else (not v)
+        if isinstance(e, ast.BoolOp):
+            vs = [truth(x, env) for x in e.values]
+            if any(v is None for v in vs):
+                return None
+            return all(vs) if isinstance(e.op, ast.And) else any(vs)
+        return None
+
+    def decided_by_formula(p, v):
+        """The returned expression, on this path, as a function of R and E: True when it equals `not R and E` for every
+        valuation the path condition allows, False when it differs for one, None when the expression has other atoms."""
+        fixed = {}
+        for t, pol in p.literals():
+            if A.is_self_attr(t, "_recompute"):
+                fixed["R"] = pol
+            elif exist_test(t):
+                fixed["E"] = pol
+            else:
+                return None
+        verdict = True
+        for R in (True, False):
+            for E in (True, False):
+                env = {"R": R, "E": E}
+                if any(env[k] != b for k, b in fixed.items()):
+                    continue
+                got = truth(v, env)
+                if got is None:
+                    return None
+                if got != ((not R) and E):
+                    verdict = False
+        return verdict
     n_plain = 0
     for p in P.paths_of(ce):
-        if p.end != "return" or any(A.is_self_attr(t, "_recompute") and pol for t, pol in p.literals()):
+        if p.end != "return":
+            continue
+        r0 = [x for x in p.stmts() if isinstance(x, ast.Return)][-1]
+        if isinstance(r0.value, ast.BoolOp) or (isinstance(r0.value, ast.UnaryOp)):
+            d = decided_by_formula(p, r0.value)
+            if d is not None:
+                n_plain += 1
+                n += 1
+                ctx.check("C18-e", d, r0, "cache_exists answers `%s` on the path [%s], which is not `the file %s is there and recompute is "
+                          "not set`: a complete stored flow would be taken for missing (or recompute ignored)" % (
+                              A.short(r0.value, 60), p.describe(3), rp0),
+                          detail="cache_exists = not recompute and the file is there [%s]" % p.describe(2),
+                          construct="exists-formula:%s" % A.short(r0.value, 40), path=p)
+                continue
+        if any(A.is_self_attr(t, "_recompute") and pol for t, pol in p.literals()):
             continue
         n_plain += 1
         r = [x for x in p.stmts() if isinstance(x, ast.Return)][-1]
